@@ -50,6 +50,10 @@ func gangMenu() []wlItem {
 		{"run-single-qa", world.WL{Queue: "qa", Pods: pods(1, shG1, world.StRunning, "n1")}},
 		{"run-sets-a1b1-qb", world.WL{Queue: "qb", MinMember: 2, SubGroups: sgAB, Pods: withSG(pods(2, shG1, world.StRunning, "n1"), "a", "b")}},
 		{"term-single-qa", world.WL{Queue: "qa", Pods: pods(1, shG1, world.StTerminating, "n1")}},
+		// one pod set holds elastic surplus while another is below its own minimum with pending pods
+		{"mixed-sets-a2run-b2pend-qa", world.WL{Queue: "qa", MinMember: 3, SubGroups: []schedv2alpha2.SubGroup{{Name: "a", MinMember: 1}, {Name: "b", MinMember: 2}},
+			Pods: withSG([]world.PodSpec{{Shape: shG1, State: world.StRunning, Node: "n1"}, {Shape: shG1, State: world.StRunning, Node: "n1"}, {Shape: shG1}, {Shape: shG1}}, "a", "a", "b", "b")}},
+		{"term-single-n2-qb", world.WL{Queue: "qb", Pods: pods(1, shG1, world.StTerminating, "n2")}},
 		{"run-gang2-split-qb", world.WL{Queue: "qb", MinMember: 2, Pods: []world.PodSpec{{Shape: shG1, State: world.StRunning, Node: "n1"}, {Shape: shG1, State: world.StRunning, Node: "n2"}}}},
 	}
 }
